@@ -142,6 +142,7 @@ Check c17_expired_connection_kept_while_borrowed : forall (chs : list chan) (c m
 Print Assumptions c17_expired_connection_kept_while_borrowed.
 Example c17_expired_connection_kept_while_borrowed_nonvacuous :
   poll_expired [(false, 0); (false, 0)] 1 2 = XRemove /\ poll_expired [(true, 0); (false, 1)] 1 2 = XKeep /\
+  poll_expired [(true, 0); (false, 0)] 1 2 = XKeep /\
   scan_from orb [(true, 0); (false, 1)] false false = (true, false).
 Proof. vm_compute. repeat split; reflexivity. Qed.
 Print Assumptions c17_expired_connection_kept_while_borrowed_nonvacuous.
@@ -152,13 +153,18 @@ Theorem c17_connection_kept_on_disconnect : forall chs,
 Proof. exact keep_on_disconnect_iff. Qed.
 Print Assumptions c17_connection_kept_on_disconnect.
 
-(* FALSE of the code as it is (candidate defect, reproduced by the harness family reqres2): a poll
-   on a channel WITHOUT data releases the expired connection although ANOTHER channel still has a
-   delivered, unreceived chunk (`_has_data` is ignored in receive_from_to_be_removed_connections):
-   the pending response of that other channel loses a response the server sent before it went away.
-   Witness: channels [(data, no borrow); (no data, no borrow)], poll on channel 1.  The partial
-   statement (the polled channel itself has no data, nothing is borrowed) is the theorem above. *)
+(* ... and only if NO channel has a delivered, unreceived chunk: a pending response does not lose a
+   response that the server sent before it went away because a sibling pending response polled the
+   expired connection first.  True since fix 9915d96 (`if !has_borrows && !has_data`); it was refuted
+   for the previous condition (`if !has_borrows`, finding
+   reqres:delivered-response-lost-when-sibling-polls-expired-connection, harness family reqres2 order
+   6,3,8,7), which is kept as the Example below over the explicit old rule. *)
 Definition c17_expired_connection_keeps_data_full : Prop := expired_keeps_data_full.
-Theorem c17_expired_connection_keeps_data_refuted : ~ c17_expired_connection_keeps_data_full.
-Proof. exact expired_keeps_data_refuted. Qed.
-Print Assumptions c17_expired_connection_keeps_data_refuted.
+Theorem c17_expired_connection_keeps_data : c17_expired_connection_keeps_data_full.
+Proof. exact expired_keeps_data. Qed.
+Check c17_expired_connection_keeps_data :
+  forall chs c m, poll_expired chs c m = XRemove -> forall ch, In ch chs -> fst ch = false.
+Print Assumptions c17_expired_connection_keeps_data.
+Example c17_expired_connection_keeps_data_old_condition_refuted : ~ expired_keeps_data_with remove_if_old.
+Proof. exact expired_keeps_data_old_refuted. Qed.
+Print Assumptions c17_expired_connection_keeps_data_old_condition_refuted.
